@@ -21,6 +21,7 @@ import GceTcb.Drive.C12
 import GceTcb.Drive.C13
 import GceTcb.Drive.C14
 import GceTcb.Drive.C15
+import GceTcb.Drive.EndorseCli
 import GceTcb.Drive.C16
 import GceTcb.Drive.C16Fs
 import GceTcb.Drive.C17
@@ -62,6 +63,7 @@ def dispatch (line : String) : String :=
     | "c13" => Drive.C13.handle f
     | "c14" => Drive.C14.handle f
     | "c15" => Drive.C15.handle f
+    | "cli" => Drive.EndorseCli.handle f
     | "c16" => Drive.C16.handle f
     | "c16fs" => Drive.C16Fs.handle f
     | "c17" => Drive.C17.handle f
